@@ -49,4 +49,22 @@ def mrun (w : Int) : AList Int → List ESub → AList Int × List Bool
     | some t' => let (tf, vs) := mrun w t' xs; (tf, true :: vs)
     | none => let (tf, vs) := mrun w t xs; (tf, false :: vs)
 
+/-! ### the expiry the badger driver asks for (`CheckAndSaveNonce`, `setExpiringItem`)
+
+`ttl := nonceExpire + 1 s`, plus `nonce − now` when the nonce is dated ahead of the store's clock; badger stamps the
+entry with `ExpiresAt = (clock + ttl).Unix()` (whole seconds, rounded down; its own clock reading `now1` is taken a
+little after the driver's `now0`) and hides it from the second `ExpiresAt` on. -/
+
+def second : Int := 1000000000
+
+def badgerTtl (w nonce now0 : Int) : Int :=
+  let ttl := w + second
+  if nonce - now0 > 0 then ttl + (nonce - now0) else ttl
+
+/-- the first instant at which the entry is no longer visible -/
+def badgerExp (w nonce now0 now1 : Int) : Int := ((now1 + badgerTtl w nonce now0) / second) * second
+
+/-- a time-to-live without the one-second slack (what a "simplification" of the code would ask for) -/
+def noSlackExp (w nonce now0 now1 : Int) : Int := ((now1 + (nonce + w - now0)) / second) * second
+
 end Vipnode.NonceTtl
